@@ -71,6 +71,10 @@ type c06Case struct {
 	RestartAt int    // -1 or RPC ordinal at which detector+syncer are stopped and restarted
 	Second    bool   // a second syncer (its own contract, its own store) shares the reorg detector
 	Chunk2    uint64 // chunk size configured from the first restart on (0: unchanged)
+	// Safe: the syncers follow the "safe" block (the detector still tracks down to the finalized one); the safe pointer lags
+	// the tip by SafeLag blocks and stays at or above the finalized block. Blocks between the two can still be replaced.
+	Safe    bool
+	SafeLag int
 }
 
 func c06Gen(rt *rapid.T) c06Case {
@@ -108,6 +112,9 @@ func c06Gen(rt *rapid.T) c06Case {
 	if rapid.IntRange(0, 3).Draw(rt, "restart") == 0 {
 		c.RestartAt = rapid.IntRange(5, 150).Draw(rt, "restartAt")
 	}
+	if rapid.IntRange(0, 3).Draw(rt, "followSafeBlock") == 0 {
+		c.Safe, c.SafeLag = true, rapid.IntRange(0, 3).Draw(rt, "safeLag")
+	}
 	return c
 }
 
@@ -140,11 +147,19 @@ type c06Leaf struct {
 }
 
 // c06Expected: the leaves implied by the canonical chain up to the visible tip.
-func c06Expected(ch *fakechain.Chain) []c06Leaf {
+// c06Vis: the highest block the syncers may look at (their configured finality).
+func c06Vis(ch *fakechain.Chain, safe bool) uint64 {
+	if safe {
+		return ch.SafeLocked()
+	}
+	return ch.LatestLocked()
+}
+
+func c06Expected(ch *fakechain.Chain, safe bool) []c06Leaf {
 	ch.Lock()
 	defer ch.Unlock()
 	var out []c06Leaf
-	for n := uint64(1); n <= ch.LatestLocked(); n++ {
+	for n := uint64(1); n <= c06Vis(ch, safe); n++ {
 		h := ch.HeaderLocked(n)
 		for _, l := range ch.LogsLocked(n) {
 			if l.Address != c06GER {
@@ -321,24 +336,25 @@ func (r *c06Rec) delivered() map[uint64]common.Hash {
 
 // c06CompareSecond: the second store holds exactly the canonical chain's blocks with a log of its contract (blocks without
 // events that it holds as range markers must be canonical too).
-func c06CompareSecond(r *c06Rec, ch *fakechain.Chain) string {
+func c06CompareSecond(r *c06Rec, ch *fakechain.Chain, safe bool) string {
 	ch.Lock()
 	defer ch.Unlock()
+	visible := c06Vis(ch, safe)
 	r.mu.Lock()
 	defer r.mu.Unlock()
 	have := map[uint64]aggkitsync.Block{}
 	for _, b := range r.kept {
-		if b.Num <= ch.LatestLocked() && b.Hash != (common.Hash{}) && b.Hash != ch.HeaderLocked(b.Num).Hash() {
+		if b.Num <= visible && b.Hash != (common.Hash{}) && b.Hash != ch.HeaderLocked(b.Num).Hash() {
 			return fmt.Sprintf("second syncer: holds block %d with hash %s, canonical %s", b.Num, b.Hash.Hex()[:10], ch.HeaderLocked(b.Num).Hash().Hex()[:10])
 		}
-		if b.Num > ch.LatestLocked() {
-			return fmt.Sprintf("second syncer: holds block %d beyond the canonical tip %d", b.Num, ch.LatestLocked())
+		if b.Num > visible {
+			return fmt.Sprintf("second syncer: holds block %d beyond the canonical tip %d", b.Num, visible)
 		}
 		if len(b.Events) > 0 {
 			have[b.Num] = b
 		}
 	}
-	for n := uint64(1); n <= ch.LatestLocked(); n++ {
+	for n := uint64(1); n <= visible; n++ {
 		want := 0
 		for _, l := range ch.LogsLocked(n) {
 			if l.Address == c06Second {
@@ -364,6 +380,21 @@ type c06Result struct {
 }
 
 func c06Run(c c06Case) (res c06Result) {
+	// safeOf: where the safe pointer stands for a given tip and finalized block
+	safeOf := func(tip, fin uint64) uint64 {
+		if !c.Safe {
+			return tip
+		}
+		s := fin
+		if tip > uint64(c.SafeLag) && tip-uint64(c.SafeLag) > fin {
+			s = tip - uint64(c.SafeLag)
+		}
+		return s
+	}
+	tipTag, finality := "latest", aggkittypes.LatestBlock
+	if c.Safe {
+		tipTag, finality = "safe", aggkittypes.SafeBlock
+	}
 	chain := fakechain.New()
 	for _, n := range c.Base {
 		chain.Extend(c06Logs(n))
@@ -377,7 +408,7 @@ func c06Run(c c06Case) (res c06Result) {
 		if fin < chain.Finalized() {
 			fin = chain.Finalized()
 		}
-		chain.SetPointers(tip, tip, fin)
+		chain.SetPointers(tip, safeOf(tip, fin), fin)
 	}
 	setPtrs()
 	var (
@@ -413,7 +444,7 @@ func c06Run(c c06Case) (res c06Result) {
 		switch {
 		case call.Method == "FilterLogs":
 			sinceLog, sweeps = 0, 0
-		case call.Method == "HeaderByNumber" && call.Tag == "latest":
+		case call.Method == "HeaderByNumber" && call.Tag == tipTag:
 			sinceLog++
 		case call.Method == "HeaderByNumber" && call.Tag == "finalized":
 			sweeps++
@@ -438,7 +469,7 @@ func c06Run(c c06Case) (res c06Result) {
 		if err := rd.Start(ctx); err != nil {
 			return nil, err
 		}
-		s, err := l1infotreesync.New(ctx, storePath, c06GER, c06RM, c.Chunk, aggkittypes.LatestBlock, rd, chain, time.Millisecond, 0, time.Millisecond, -1,
+		s, err := l1infotreesync.New(ctx, storePath, c06GER, c06RM, c.Chunk, finality, rd, chain, time.Millisecond, 0, time.Millisecond, -1,
 			l1infotreesync.FlagAllowWrongContractsAddrs, aggkittypes.FinalizedBlock, false)
 		if err != nil {
 			return nil, err
@@ -453,7 +484,7 @@ func c06Run(c c06Case) (res c06Result) {
 				return nil
 			}}
 			rh := &aggkitsync.RetryHandler{RetryAfterErrorPeriod: time.Millisecond, MaxRetryAttemptsAfterError: -1}
-			dl, err := aggkitsync.NewEVMDownloader(c06SecondID, chain, c.Chunk, aggkittypes.LatestBlock, time.Millisecond, appender,
+			dl, err := aggkitsync.NewEVMDownloader(c06SecondID, chain, c.Chunk, finality, time.Millisecond, appender,
 				[]common.Address{c06Second}, rh, aggkittypes.FinalizedBlock)
 			if err != nil {
 				return nil, err
@@ -592,6 +623,7 @@ func c06Run(c c06Case) (res c06Result) {
 		}
 		var (
 			at, newTip uint64
+			newVis     uint64 // what the syncers can see of the new fork
 			old        = map[uint64]common.Hash{}
 			subs       []*subState
 		)
@@ -635,7 +667,7 @@ func c06Run(c c06Case) (res c06Result) {
 			}
 			if f.Atomic {
 				// the canonical chain is at once longer than the fork it replaces ...
-				for chain.TipLocked() <= maxTip {
+				for chain.TipLocked() <= maxTip+uint64(c.SafeLag) {
 					chain.ExtendLocked(nil)
 				}
 			}
@@ -650,7 +682,11 @@ func c06Run(c c06Case) (res c06Result) {
 					fin = newTip
 				}
 			}
-			chain.SetPointersLocked(newTip, newTip, fin)
+			chain.SetPointersLocked(newTip, safeOf(newTip, fin), fin)
+			newVis = newTip
+			if c.Safe {
+				newVis = safeOf(newTip, fin)
+			}
 		}
 		if f.Atomic {
 			fired := make(chan struct{})
@@ -705,7 +741,7 @@ func c06Run(c c06Case) (res c06Result) {
 		for _, sb := range subs {
 			// the detector compares tracked blocks with the headers the chain serves now: while the new fork is shorter than a
 			// replaced delivered block the node cannot know about the reorg yet (the final convergence check still applies)
-			if !(isolated && sb.first != 0 && newTip >= sb.last) {
+			if !(isolated && sb.first != 0 && newVis >= sb.last) {
 				continue
 			}
 			// (2) the syncer must be rewound at or before the first replaced delivered block.
@@ -759,7 +795,7 @@ func c06Run(c c06Case) (res c06Result) {
 			chain.Extend(c06Logs(int(c06Seq % 5)))
 		}
 		// a canonical chain keeps growing: the new fork soon becomes longer than the one it replaced
-		for chain.Tip() <= maxTip {
+		for chain.Tip() <= maxTip+uint64(c.SafeLag) {
 			chain.Extend(nil)
 		}
 		if f.Down && f.PassFin {
@@ -785,7 +821,7 @@ func c06Run(c c06Case) (res c06Result) {
 		}
 	}
 	// a canonical chain keeps growing: the final chain is at least as long as any fork the node has seen
-	for chain.Tip() <= maxTip {
+	for chain.Tip() <= maxTip+uint64(c.SafeLag) {
 		chain.Extend(nil)
 	}
 	setPtrs()
@@ -798,9 +834,9 @@ func c06Run(c c06Case) (res c06Result) {
 			return
 		}
 		if idle() {
-			diff = c06Compare(cur, c06Expected(chain))
+			diff = c06Compare(cur, c06Expected(chain, c.Safe))
 			if diff == "" && c.Second {
-				diff = c06CompareSecond(rec2, chain)
+				diff = c06CompareSecond(rec2, chain, c.Safe)
 			}
 			if diff == "" {
 				break
